@@ -387,6 +387,38 @@ pub fn gen_c17(sh: &mut Shards, o: &Opts) -> serde_json::Value {
         let mid = hsl_of(&big, w, h);
         let back = mid.clone().and_then(|m| lin_of_hsl(&m, w, h));
         emit_io_probe(sh, "hsl", "", w, h, &big, &[("out", mid), ("back", back)], &idx, false);
+        // echo: a pixel followed by the pixel that equals its own HSL result (possible when H = 0: greys and pure reds)
+        let mut src: Vec<[f32; 3]> = Vec::new();
+        for g in 0..=8 {
+            let v = g as f32 / 8.0;
+            src.push([v, v, v]);
+            src.push([v, 0.0, 0.0]);
+            src.push([1.0, v, v]);
+        }
+        let echo: Vec<[f32; 3]> = echo_image(&src, |p| hsl_of(p, 1, 1)).into_iter().filter(|q| q.iter().all(|x| (0.0..=1.0).contains(x))).collect();
+        for (at, w, h) in cut_images(echo.len(), 9) {
+            let img = &echo[at..at + w * h];
+            let mid = hsl_of(img, w, h);
+            let back = mid.clone().and_then(|m| lin_of_hsl(&m, w, h));
+            emit_io(sh, "hsl", "\"echo\":1,", w, h, img, &[("out", mid), ("back", back)], false);
+        }
+        // small chroma (max - min in [0.01, 0.06]) with the two largest channels 1e-6 .. 1e-5 apart: the sextant decision
+        // matters most where the hue formula divides by a small chroma
+        let mut close: Vec<[f32; 3]> = Vec::new();
+        for i in 0..240 {
+            let g = 0.1 + 0.8 * (rng.unit() as f32);
+            let c = 0.01 + 0.05 * (rng.unit() as f32);
+            let d = [1e-6f32, 3e-6, 5e-6, 9e-6][i % 4];
+            let tri = [g, g - d, g - c];
+            let perm = [[0usize, 1, 2], [1, 0, 2], [0, 2, 1], [2, 0, 1], [1, 2, 0], [2, 1, 0]][i % 6];
+            close.push([tri[perm[0]], tri[perm[1]], tri[perm[2]]]);
+        }
+        for (at, w, h) in cut_images(close.len(), 10) {
+            let img = &close[at..at + w * h];
+            let mid = hsl_of(img, w, h);
+            let back = mid.clone().and_then(|m| lin_of_hsl(&m, w, h));
+            emit_io(sh, "hsl", "\"close\":1,", w, h, img, &[("out", mid), ("back", back)], false);
+        }
         // runs of identical pixels and alternations (state carried from one pixel to the next)
         let mut runs: Vec<[f32; 3]> = Vec::new();
         for p in lattice(3, 0.0, 1.0) {
